@@ -261,8 +261,7 @@ def conflict_key(req, other):
 
 
 def acts_key(req, obs, exp):
-    diff = [f for f in ('kind', 'func', 'pos', 'kw', 'fac', 'args', 'hard', 'soft') if obs.get(f) != exp.get(f)]
-    return 'C15/%s/new-task-does-not-act-as-requested/%s' % (req['kind'], '+'.join(diff))
+    return 'C15/%s/new-task-does-not-act-as-requested' % req['kind']
 
 
 def classify(world, idx, clauses, exp_meaning=None):
@@ -285,7 +284,8 @@ def classify(world, idx, clauses, exp_meaning=None):
     if 'ErrorOK' in clauses:
         return 'C15/%s/error-on-first-request' % req['kind'], 'request %s raised %s although nothing different was asked before' % (req, ev['exc'])
     exp = exp_meaning or {}
-    return acts_key(req, ev['obs'], exp), 'request %s: the new task does %s' % (req, ev['obs'])
+    diff = [f for f in ('kind', 'func', 'pos', 'kw', 'fac', 'args', 'hard', 'soft') if exp and ev['obs'].get(f) != exp.get(f)]
+    return acts_key(req, ev['obs'], exp), 'request %s: the new task does %s%s' % (req, ev['obs'], ' (differs in %s)' % diff if diff else '')
 
 
 # ---------------------------------------------------------------------------------------------
